@@ -296,9 +296,9 @@ ProtocolExtension::parse_handshake() {
   }
 
   if (message[key_p].is_value()) {
-    uint16_t port = message[key_p].as_value();
+    int64_t port = message[key_p].as_value();
 
-    if (port > 0)
+    if (port > 0 && port <= 65535)
       m_peerInfo->set_listen_port(port);
   }
 
